@@ -403,6 +403,8 @@ class Verifier:
         rep = FunctionReport(con.target)
         t0 = time.time()
         vals.reset_axioms()
+        from . import genmodel as _gm
+        _gm.NAMES_ACTIVE.clear()
         try:
             fn, owner = CT.resolve(con.target)
         except Exception as e:
@@ -510,7 +512,9 @@ class Verifier:
             rep.failed.extend([ob] if ob.status != 'discharged' else [])
         E.on_require = on_require
         E.cur_con, E.cur_fn = con, fn
-        E.class_snapshot = list(E.classes.known())     # the candidate classes are fixed for the whole exploration
+        # the candidate classes are fixed for the whole exploration; closed world per
+        # module family: values handled by the runtime are never IR / AST objects and vice versa
+        E.class_snapshot = class_universe(E, con.target, con.opts.get('universe'))
         E.unfold_only = con.opts.get('unfold')
         install_contracts(E)
         try:
@@ -526,6 +530,27 @@ class Verifier:
         rep.assumptions = sorted(E.assumptions)
         rep.seconds = time.time() - t0
         return rep
+
+
+def class_universe(E, target, universe=None):
+    fam = universe
+    if fam is None:
+        if target.startswith('stone.backends.python_rsrc'):
+            fam = 'runtime'
+        elif target.startswith('stone.ir') or target.startswith('stone.frontend'):
+            fam = 'ir'
+        else:
+            fam = 'all'
+    out = []
+    for K in E.classes.known():
+        mod = getattr(K, '__module__', '')
+        if fam == 'all' or not mod.startswith('stone.'):
+            out.append(K)
+        elif fam == 'runtime' and mod.startswith('stone.backends.python_rsrc'):
+            out.append(K)
+        elif fam == 'ir' and (mod.startswith('stone.ir') or mod.startswith('stone.frontend')):
+            out.append(K)
+    return out
 
 
 def _copy_cache(v):
